@@ -17,7 +17,7 @@ EXPLANATION = (
     "parameter) is a violation.  Also decided: the crate call graph reachable from the reader is acyclic (no recursion, bounded "
     "stack use by the crate's code); every CFG cycle in the reader's bodies contains a call that consumes input "
     "(Reader::read_event_into) or advances a finite iterator; the loop has an exit to the graph constructor; the directedness "
-    "passed to the constructor depends on the document's edgedefault attribute with matching polarity.  R-C19-7: a trip through the event loop that appends a node in the Start handler takes the \"edge\" value away from the last-element marker.  NOT decided: that quick-xml "
+    "passed to the constructor depends on the document's edgedefault attribute with matching polarity.  R-C19-7: a trip through the event loop that appends a node in the Start handler takes the \"edge\" value away from the last-element marker.  R-C19-8: attribute values are taken through unescape_value, never from the raw bytes.  NOT decided: that quick-xml "
     "itself never panics or loops; that the returned graph contains exactly the document's elements (value-level)."
 )
 TRUSTED = [
@@ -127,6 +127,12 @@ def run(ctx):
     ctx.require(ctor_b.path not in direct, "R-C19-5", "constructor-through-mutators", "the constructor touches no index field itself", "new_from_nodes_and_edges writes the index fields %s itself instead of going through add_node / add_edge: a document that repeats a node id yields a graph holding that node twice" % sorted(direct.get(ctor_b.path, {})), loc_str(ctor_b.span))
     rets = [t for t in root.calls() if t.callee and t.callee.target_path(prog) == ctor_b.path]
     ctx.require(len(rets) >= 1, "R-C19-5", "reader-uses-constructor", "the reader hands its nodes and edges to the checked constructor", "the reader no longer builds its result with new_from_nodes_and_edges", loc_str(root.span))
+
+    # ------------------------------------------------------------------ R-C19-8 attribute values are unescaped
+    ctx.rule("R-C19-8", "the names the reader stores are the UNESCAPED attribute values (entity and character references resolved)")
+    from props.c14 import attribute_values_unescaped
+
+    attribute_values_unescaped(ctx, prog, "R-C19-8", root, "two spellings of one name (`a&amp;b`, `a&#38;b`) become two nodes, and a malformed reference is accepted instead of being reported as an error")
 
     # ------------------------------------------------------------------ R-C19-6 look-ahead only after an opening tag
     # "the graph contains exactly the node and edge elements of the document": the reader consumes one EXTRA event
